@@ -23,6 +23,7 @@ type Call struct {
 	Path []jl.Frag `json:"path"`
 	V    jl.Node   `json:"v,omitempty"`
 	Md   jl.Node   `json:"md,omitempty"` // {"m": "const"|"wrap"|"same", "v": node}
+	Fx   int       `json:"fx,omitempty"` // generator hint: index of the fragment under test in this call's path
 }
 
 type Beh struct {
@@ -204,14 +205,30 @@ func mutRandom(args []string) {
 				path = append(path, f)
 				cur = next
 			}
+			hint := 0
+			if last := path[len(path)-1]; last["f"] == "union" && !hasSlice(path) {
+				// generator hint for the locus: the fragment an operation is applied with is the last one
+				hint = len(path)
+			}
 			op := allOps[r.Intn(len(allOps))]
 			cs := calls(path, []string{op}, true)
-			b.Hist = append(b.Hist, cs[r.Intn(len(cs))])
+			cl := cs[r.Intn(len(cs))]
+			cl.Fx = hint
+			b.Hist = append(b.Hist, cl)
 		}
 		bb, _ := json.Marshal(b)
 		out.Write(bb)
 		out.WriteByte('\n')
 	}
+}
+
+func hasSlice(path []jl.Frag) bool {
+	for _, f := range path {
+		if f["f"] == "slice" {
+			return true
+		}
+	}
+	return false
 }
 
 // ---------------------------------------------------------------- replay
@@ -309,6 +326,9 @@ func runBeh(b *Beh) []stepLine {
 			ps = jl.Expr(c.Path).String()
 		}()
 		ln := stepLine{B: b.ID, K: k + 1, Src: b.Src, Fx: b.Fx, M: c, PS: ps}
+		if c.Fx > 0 {
+			ln.Fx = c.Fx
+		}
 		for i, fl := range flavours {
 			before := jl.Project(datas[i])
 			root, r, msg := apply(c, datas[i], fl)
